@@ -65,7 +65,8 @@ namespace internal
 
 		DataRawUniqueHashIterator& operator+=(ptrdiff_t diff)
 		{
-			ptrdiff_t newRawIndex = mRawIndex + diff;
+			ptrdiff_t newRawIndex = static_cast<ptrdiff_t>(
+				static_cast<size_t>(mRawIndex) + static_cast<size_t>(diff));
 			MOMO_CHECK(0 <= newRawIndex && newRawIndex <= ((mRaw != nullptr) ? 1 : 0));
 			mRawIndex = newRawIndex;
 			return *this;
@@ -191,7 +192,8 @@ namespace internal
 			{
 				VersionKeeper::Check();
 				MOMO_CHECK(mRaw0 != nullptr);
-				ptrdiff_t newRawIndex = mRawIndex + diff;
+				ptrdiff_t newRawIndex = static_cast<ptrdiff_t>(
+					static_cast<size_t>(mRawIndex) + static_cast<size_t>(diff));
 				MOMO_CHECK(newRawIndex >= 0);
 				MOMO_CHECK(mRawBegin != RawIterator() || newRawIndex <= 1);
 				mRawIndex = newRawIndex;
